@@ -1235,4 +1235,442 @@ theorem interpEs_id : ∀ (es : List (Key × Value)) (n : Nat) (root : Mapping) 
       · simp only [eraseEs, h2', h2, h5]
 end
 
+/-! ## Keys and flag sets of a flattened / interpolated well-formed mapping -/
+
+theorem mem_setInsert {x k : Key} {s : List Key} : x ∈ setInsert k s ↔ x ∈ s ∨ x = k := by
+  unfold setInsert
+  split
+  · constructor
+    · exact Or.inl
+    · rintro (h | h)
+      · exact h
+      · subst h; assumption
+  · simp
+
+/-- `insertImpl_fresh` with the flag sets spelled out. -/
+theorem insertImpl_fresh_eq (m : Mapping) {k : Key} (v : Value) (fc fo : Bool)
+    (hk : CleanKey k) (hn : k ∉ keys m.es) :
+    m.insertImpl k v fc fo = .ok ⟨m.es ++ [(k, v)],
+      if fc then setInsert k m.ck else m.ck, if fo then setInsert k m.ok else m.ok⟩ := by
+  unfold Mapping.insertImpl
+  rw [show k.stripPrefix = (k, none) from hk]
+  simp [lookup_none_iff.2 hn]
+
+theorem flag_step (k x : Key) (s acc rest : List Key) :
+    (x ∈ (if decide (k ∈ s) = true then setInsert k acc else acc) ∨ (x ∈ rest ∧ x ∈ s)) ↔
+      (x ∈ acc ∨ (x ∈ k :: rest ∧ x ∈ s)) := by
+  by_cases hk : k ∈ s
+  · simp only [hk, decide_true, if_true, mem_setInsert, List.mem_cons]
+    constructor
+    · rintro ((h | h) | h)
+      · exact Or.inl h
+      · exact Or.inr ⟨Or.inl h, h ▸ hk⟩
+      · exact Or.inr ⟨Or.inr h.1, h.2⟩
+    · rintro (h | ⟨h | h, h'⟩)
+      · exact Or.inl (Or.inl h)
+      · exact Or.inl (Or.inr h)
+      · exact Or.inr ⟨h, h'⟩
+  · simp only [hk, decide_false, Bool.false_eq_true, if_false, List.mem_cons]
+    constructor
+    · rintro (h | h)
+      · exact Or.inl h
+      · exact Or.inr ⟨Or.inr h.1, h.2⟩
+    · rintro (h | ⟨h | h, h'⟩)
+      · exact Or.inl h
+      · exact absurd (h ▸ h') hk
+      · exact Or.inr ⟨h, h'⟩
+
+/-- Keys (in order) and flag sets after `Mapping::flattened` of a well-formed entry list. -/
+theorem flatEs_shape {ck ok : List Key} {st : RState} : ∀ (es : List (Key × Value)) (acc m : Mapping),
+    WFEs es → (keys acc.es ++ keys es).Nodup → flatEs es ck ok st acc = .ok m →
+    keys m.es = keys acc.es ++ keys es ∧
+    (∀ x, x ∈ m.ck ↔ x ∈ acc.ck ∨ (x ∈ keys es ∧ x ∈ ck)) ∧
+    (∀ x, x ∈ m.ok ↔ x ∈ acc.ok ∨ (x ∈ keys es ∧ x ∈ ok)) := by
+  intro es
+  induction es with
+  | nil =>
+    intro acc m _ _ h
+    simp only [flatEs, Except.ok.injEq] at h
+    subst h
+    simp [keys]
+  | cons e rest ih =>
+    obtain ⟨k, v⟩ := e
+    intro acc m hes hnd h
+    simp only [flatEs] at h
+    simp only [WFEs] at hes
+    cases h1 : flat v st with
+    | error e => simp [h1] at h
+    | ok v' =>
+      simp only [h1] at h
+      have hstep := nodup_keys_step (by simpa [keys] using hnd : (keys acc.es ++ k :: keys rest).Nodup)
+      rw [insertImpl_fresh_eq acc v' _ _ hes.1 hstep.1] at h
+      simp only at h
+      obtain ⟨a, b, c⟩ := ih _ m hes.2.2 (by simpa [keys] using hstep.2) h
+      refine ⟨by simp [a, keys], ?_, ?_⟩
+      · intro x; rw [b x]; exact flag_step k x ck acc.ck (keys rest)
+      · intro x; rw [c x]; exact flag_step k x ok acc.ok (keys rest)
+
+/-- Keys (in order) and flag sets after `Mapping::interpolate` of a well-formed entry list. -/
+theorem interpEs_shape {root : Mapping} {ck ok : List Key} {st : RState} :
+    ∀ (es : List (Key × Value)) (n : Nat) (acc m : Mapping),
+    WFEs es → (keys acc.es ++ keys es).Nodup → interpEs n root es ck ok st acc = .ok m →
+    keys m.es = keys acc.es ++ keys es ∧
+    (∀ x, x ∈ m.ck ↔ x ∈ acc.ck ∨ (x ∈ keys es ∧ x ∈ ck)) ∧
+    (∀ x, x ∈ m.ok ↔ x ∈ acc.ok ∨ (x ∈ keys es ∧ x ∈ ok)) := by
+  intro es
+  induction es with
+  | nil =>
+    intro n acc m _ _ h
+    cases n with
+    | zero => simp [interpEs] at h
+    | succ n =>
+      simp only [interpEs, Except.ok.injEq] at h
+      subst h
+      simp [keys]
+  | cons e rest ih =>
+    obtain ⟨k, v⟩ := e
+    intro n acc m hes hnd h
+    cases n with
+    | zero => simp [interpEs] at h
+    | succ n =>
+      simp only [interpEs] at h
+      simp only [WFEs] at hes
+      cases h1 : interp n root v (st.pushMappingKey k) with
+      | error e => simp [h1] at h
+      | ok p =>
+        obtain ⟨v1, st1⟩ := p
+        simp only [h1] at h
+        cases h2 : flat v1 st1 with
+        | error e => simp [h2] at h
+        | ok v2 =>
+          simp only [h2] at h
+          have hstep := nodup_keys_step (by simpa [keys] using hnd : (keys acc.es ++ k :: keys rest).Nodup)
+          rw [insertImpl_fresh_eq acc v2 _ _ hes.1 hstep.1] at h
+          simp only at h
+          obtain ⟨a, b, c⟩ := ih n _ m hes.2.2 (by simpa [keys] using hstep.2) h
+          refine ⟨by simp [a, keys], ?_, ?_⟩
+          · intro x; rw [b x]; exact flag_step k x ck acc.ck (keys rest)
+          · intro x; rw [c x]; exact flag_step k x ok acc.ok (keys rest)
+
+/-- Rendering a well-formed mapping keeps its top-level keys, in order; a key is flagged
+constant/override afterwards iff it was flagged before and is present. -/
+theorem renderParamsF_shape {n : Nat} {m out : Mapping} (hm : WF m.toValue)
+    (h : renderParamsF n m = .ok out) :
+    keys out.es = keys m.es ∧
+    (∀ x, x ∈ out.ck ↔ x ∈ m.ck ∧ x ∈ keys m.es) ∧
+    (∀ x, x ∈ out.ok ↔ x ∈ m.ok ∧ x ∈ keys m.es) := by
+  unfold renderParamsF renderedF at h
+  cases n with
+  | zero => simp [interp] at h
+  | succ n =>
+    simp only [Mapping.toValue, interp] at h
+    simp only [Mapping.toValue, WF] at hm
+    cases h1 : interpEs n m m.es m.ck m.ok {} {} with
+    | error e => simp [h1] at h
+    | ok m1 =>
+      simp only [h1, Mapping.toValue, flat] at h
+      obtain ⟨a1, b1, c1⟩ := interpEs_shape m.es n {} m1 hm.1 (by simpa using hm.2) h1
+      have hw1 := ((interpInv (n+1)).interp m m.toValue {} m1.toValue {}
+        (by simpa [Mapping.toValue, WF] using hm) (by simpa [Mapping.toValue, WF] using hm)
+        (by simp only [Mapping.toValue, interp, h1])).2
+      simp only [Mapping.toValue, WF] at hw1
+      cases h2 : flatEs m1.es m1.ck m1.ok {} {} with
+      | error e => simp [h2] at h
+      | ok m2 =>
+        simp only [h2, Except.ok.injEq] at h
+        obtain ⟨a2, b2, c2⟩ := flatEs_shape m1.es {} m2 hw1.1 (by simpa using hw1.2) h2
+        subst h
+        simp only [keys, List.map_nil, List.nil_append,
+          List.not_mem_nil, false_or] at a1 b1 c1 a2 b2 c2
+        refine ⟨by simp only [keys, a2, a1], ?_, ?_⟩
+        · intro x; simp only [b2 x, a1, b1 x, keys]; constructor
+          · rintro ⟨_, h1, h2⟩; exact ⟨h2, h1⟩
+          · rintro ⟨h1, h2⟩; exact ⟨h2, h2, h1⟩
+        · intro x; simp only [c2 x, a1, c1 x, keys]; constructor
+          · rintro ⟨_, h1, h2⟩; exact ⟨h2, h1⟩
+          · rintro ⟨h1, h2⟩; exact ⟨h2, h2, h1⟩
+
+/-! ## Generic preservation: predicates on values that survive merging and flattening -/
+
+/-- A family `P`/`PL`/`PEs` that is determined element-wise on sequences and mappings, passes
+from a layer list to its layers, holds for `Null`, and is kept by `combine`. -/
+structure ValPred where
+  P : Value → Prop
+  PL : List Value → Prop
+  PEs : List (Key × Value) → Prop
+  nilL : PL []
+  consL : ∀ v vs, PL (v :: vs) ↔ P v ∧ PL vs
+  nilEs : PEs []
+  consEs : ∀ k v es, PEs ((k, v) :: es) ↔ P v ∧ PEs es
+  map : ∀ es ck ok, P (.map es ck ok) ↔ PEs es
+  seq : ∀ l, P (.seq l) ↔ PL l
+  vlL : ∀ l, P (.vl l) → PL l
+  null : P .null
+  combine : ∀ a b, P a → P b → P (combine a b)
+
+namespace ValPred
+variable (S : ValPred)
+
+theorem appendL {a b : List Value} : S.PL (a ++ b) ↔ S.PL a ∧ S.PL b := by
+  induction a with
+  | nil => simp [S.nilL]
+  | cons x a ih => simp only [List.cons_append, S.consL, ih, and_assoc]
+
+theorem appendEs {es : List (Key × Value)} {k : Key} {v : Value} :
+    S.PEs (es ++ [(k, v)]) ↔ S.PEs es ∧ S.P v := by
+  induction es with
+  | nil => simp [S.consEs, S.nilEs]
+  | cons e es ih =>
+    obtain ⟨k', v'⟩ := e
+    simp only [List.cons_append, S.consEs, ih, and_assoc]
+
+theorem replaceValEs {es : List (Key × Value)} {k : Key} {v : Value}
+    (h : S.PEs es) (hv : S.P v) : S.PEs (replaceVal k v es) := by
+  induction es with
+  | nil => simpa [replaceVal] using S.nilEs
+  | cons e es ih =>
+    obtain ⟨k', v'⟩ := e
+    rw [S.consEs] at h
+    by_cases hk : k' = k
+    · simp only [replaceVal, hk, if_true, S.consEs]; exact ⟨hv, h.2⟩
+    · simp only [replaceVal, hk, if_false, S.consEs]; exact ⟨h.1, ih h.2⟩
+
+theorem lookupEs {es : List (Key × Value)} {k : Key} {v : Value}
+    (h : S.PEs es) (hl : lookup k es = some v) : S.P v := by
+  induction es with
+  | nil => simp [lookup] at hl
+  | cons e es ih =>
+    obtain ⟨k', v'⟩ := e
+    rw [S.consEs] at h
+    by_cases hk : k' = k
+    · simp only [lookup, hk, if_true, Option.some.injEq] at hl; exact hl ▸ h.1
+    · simp only [lookup, hk, if_false] at hl; exact ih h.2 hl
+
+theorem insertImpl_pres {m m' : Mapping} {k : Key} {v : Value} {fc fo : Bool}
+    (hm : S.PEs m.es) (hv : S.P v) (h : m.insertImpl k v fc fo = .ok m') : S.PEs m'.es := by
+  unfold Mapping.insertImpl at h
+  generalize k.stripPrefix = kp at h
+  obtain ⟨k1, p⟩ := kp
+  simp only at h
+  cases hl : lookup k1 m.es with
+  | none =>
+    simp only [hl, Except.ok.injEq] at h
+    subst h
+    exact S.appendEs.2 ⟨hm, hv⟩
+  | some old =>
+    simp only [hl] at h
+    by_cases hc : k1 ∈ m.ck
+    · simp [hc] at h
+    · simp only [hc, if_false, Except.ok.injEq] at h
+      subst h
+      simp only
+      split
+      · exact S.replaceValEs hm hv
+      · exact S.replaceValEs hm (S.combine _ _ (S.lookupEs hm hl) hv)
+
+theorem mergeEntries_pres {ock ook : List Key} {es : List (Key × Value)} :
+    ∀ {m m' : Mapping}, S.PEs m.es → S.PEs es →
+      m.mergeEntries ock ook es = .ok m' → S.PEs m'.es := by
+  induction es with
+  | nil => intro m m' hm _ h; simp only [Mapping.mergeEntries, Except.ok.injEq] at h; exact h ▸ hm
+  | cons e es ih =>
+    obtain ⟨k, v⟩ := e
+    intro m m' hm hes h
+    rw [S.consEs] at hes
+    simp only [Mapping.mergeEntries] at h
+    cases h1 : m.insertImpl k v (decide (k ∈ ock)) (decide (k ∈ ook)) with
+    | error e => simp [h1] at h
+    | ok m1 =>
+      simp only [h1] at h
+      exact ih (S.insertImpl_pres hm hes.1 h1) hes.2 h
+
+theorem mergeNonVl_pres {a b r : Value} {st : RState} (ha : S.P a) (hb : S.P b)
+    (h : mergeNonVl a b st = .ok r) : S.P r := by
+  cases a with
+  | null => simp only [mergeNonVl, Except.ok.injEq] at h; exact h ▸ hb
+  | map es ck ok =>
+    cases b with
+    | map es' ck' ok' =>
+      simp only [mergeNonVl] at h
+      cases h1 : Mapping.merge ⟨es, ck, ok⟩ ⟨es', ck', ok'⟩ with
+      | error e => simp [h1] at h
+      | ok m =>
+        simp only [h1, Except.ok.injEq] at h
+        subst h
+        rw [S.map] at ha hb
+        simp only [Mapping.toValue, S.map]
+        exact S.mergeEntries_pres (m := ⟨es, ck, ok⟩) ha hb h1
+    | _ => simp [mergeNonVl] at h
+  | seq s =>
+    cases b with
+    | seq s' =>
+      simp only [mergeNonVl, Except.ok.injEq] at h
+      subst h
+      rw [S.seq] at ha hb ⊢
+      exact S.appendL.2 ⟨ha, hb⟩
+    | _ => simp [mergeNonVl] at h
+  | str _ => simp [mergeNonVl] at h
+  | vl _ => simp [mergeNonVl] at h
+  | bool _ =>
+    simp only [mergeNonVl] at h
+    split at h
+    · simp at h
+    · simp only [Except.ok.injEq] at h; exact h ▸ hb
+  | num _ =>
+    simp only [mergeNonVl] at h
+    split at h
+    · simp at h
+    · simp only [Except.ok.injEq] at h; exact h ▸ hb
+  | lit _ =>
+    simp only [mergeNonVl] at h
+    split at h
+    · simp at h
+    · simp only [Except.ok.injEq] at h; exact h ▸ hb
+
+mutual
+theorem flat_pres : ∀ (v : Value) (st : RState) (r : Value), S.P v → flat v st = .ok r → S.P r
+  | .vl l, st, r, hv, h => by
+    simp only [flat] at h
+    exact flatVl_pres l .null st r (S.vlL l hv) S.null h
+  | .map es ck ok, st, r, hv, h => by
+    simp only [flat] at h
+    cases h1 : flatEs es ck ok st {} with
+    | error e => simp [h1] at h
+    | ok m =>
+      simp only [h1, Except.ok.injEq] at h
+      subst h
+      rw [S.map] at hv
+      simp only [Mapping.toValue, S.map]
+      exact flatEs_pres es ck ok st {} m hv S.nilEs h1
+  | .seq l, st, r, hv, h => by
+    simp only [flat] at h
+    cases h1 : flatL l st with
+    | error e => simp [h1] at h
+    | ok l' =>
+      simp only [h1, Except.ok.injEq] at h
+      subst h
+      rw [S.seq] at hv ⊢
+      exact flatL_pres l st l' hv h1
+  | .str _, st, r, _, h => by simp [flat] at h
+  | .null, st, r, hv, h => by simp only [flat, Except.ok.injEq] at h; exact h ▸ hv
+  | .bool _, st, r, hv, h => by simp only [flat, Except.ok.injEq] at h; exact h ▸ hv
+  | .num _, st, r, hv, h => by simp only [flat, Except.ok.injEq] at h; exact h ▸ hv
+  | .lit _, st, r, hv, h => by simp only [flat, Except.ok.injEq] at h; exact h ▸ hv
+theorem flatVl_pres : ∀ (l : List Value) (base : Value) (st : RState) (r : Value),
+    S.PL l → S.P base → flatVl l base st = .ok r → S.P r
+  | [], base, st, r, _, hb, h => by simp only [flatVl, Except.ok.injEq] at h; exact h ▸ hb
+  | v :: rest, base, st, r, hl, hb, h => by
+    simp only [flatVl] at h
+    rw [S.consL] at hl
+    cases h1 : mergeV base v st with
+    | error e => simp [h1] at h
+    | ok b =>
+      simp only [h1] at h
+      exact flatVl_pres rest b st r hl.2 (mergeV_pres base v st b hb hl.1 h1) h
+theorem mergeV_pres : ∀ (self other : Value) (st : RState) (r : Value),
+    S.P self → S.P other → mergeV self other st = .ok r → S.P r
+  | self, .null, st, r, _, _, h => by
+    simp only [mergeV, Except.ok.injEq] at h; subst h; exact S.null
+  | self, .vl l, st, r, hs, ho, h => by
+    simp only [mergeV] at h
+    cases h1 : flatVl l .null st with
+    | error e => simp [h1] at h
+    | ok o =>
+      simp only [h1] at h
+      exact S.mergeNonVl_pres hs (flatVl_pres l .null st o (S.vlL l ho) S.null h1) h
+  | self, .map es ck ok, st, r, hs, ho, h => by
+    simp only [mergeV] at h; exact S.mergeNonVl_pres hs ho h
+  | self, .seq l, st, r, hs, ho, h => by
+    simp only [mergeV] at h; exact S.mergeNonVl_pres hs ho h
+  | self, .str _, st, r, hs, ho, h => by
+    simp only [mergeV] at h; exact S.mergeNonVl_pres hs ho h
+  | self, .bool _, st, r, hs, ho, h => by
+    simp only [mergeV] at h; exact S.mergeNonVl_pres hs ho h
+  | self, .num _, st, r, hs, ho, h => by
+    simp only [mergeV] at h; exact S.mergeNonVl_pres hs ho h
+  | self, .lit _, st, r, hs, ho, h => by
+    simp only [mergeV] at h; exact S.mergeNonVl_pres hs ho h
+theorem flatL_pres : ∀ (l : List Value) (st : RState) (r : List Value),
+    S.PL l → flatL l st = .ok r → S.PL r
+  | [], st, r, _, h => by simp only [flatL, Except.ok.injEq] at h; subst h; exact S.nilL
+  | v :: vs, st, r, hl, h => by
+    simp only [flatL] at h
+    rw [S.consL] at hl
+    cases h1 : flat v st with
+    | error e => simp [h1] at h
+    | ok x =>
+      simp only [h1] at h
+      cases h2 : flatL vs st with
+      | error e => simp [h2] at h
+      | ok xs =>
+        simp only [h2, Except.ok.injEq] at h
+        subst h
+        exact (S.consL _ _).2 ⟨flat_pres v st x hl.1 h1, flatL_pres vs st xs hl.2 h2⟩
+theorem flatEs_pres : ∀ (es : List (Key × Value)) (ck ok : List Key) (st : RState) (acc m : Mapping),
+    S.PEs es → S.PEs acc.es → flatEs es ck ok st acc = .ok m → S.PEs m.es
+  | [], ck, ok, st, acc, m, _, ha, h => by simp only [flatEs, Except.ok.injEq] at h; exact h ▸ ha
+  | (k, v) :: rest, ck, ok, st, acc, m, hes, ha, h => by
+    simp only [flatEs] at h
+    rw [S.consEs] at hes
+    cases h1 : flat v st with
+    | error e => simp [h1] at h
+    | ok v' =>
+      simp only [h1] at h
+      cases h2 : acc.insertImpl k v' (decide (k ∈ ck)) (decide (k ∈ ok)) with
+      | error e => simp [h2] at h
+      | ok acc' =>
+        simp only [h2] at h
+        exact flatEs_pres rest ck ok st acc' m hes.2
+          (S.insertImpl_pres ha (flat_pres v st v' hes.1 h1) h2) h
+end
+
+end ValPred
+
+/-! ### Instances: `NoStr` and `NoNest` -/
+
+theorem noStrL_append {a b : List Value} : NoStrL (a ++ b) ↔ NoStrL a ∧ NoStrL b := by
+  induction a with
+  | nil => simp [NoStrL]
+  | cons x a ih => simp only [List.cons_append, NoStrL, ih, and_assoc]
+
+theorem noNestL_append {a b : List Value} : NoNestL (a ++ b) ↔ NoNestL a ∧ NoNestL b := by
+  induction a with
+  | nil => simp [NoNestL]
+  | cons x a ih => simp only [List.cons_append, NoNestL, ih, and_assoc]
+
+def noStrPred : ValPred where
+  P := NoStr
+  PL := NoStrL
+  PEs := NoStrEs
+  nilL := by simp [NoStrL]
+  consL := by intros; simp [NoStrL]
+  nilEs := by simp [NoStrEs]
+  consEs := by intros; simp [NoStrEs]
+  map := by intros; simp [NoStr]
+  seq := by intros; simp [NoStr]
+  vlL := by intro l h; simpa [NoStr] using h
+  null := by simp [NoStr]
+  combine := by
+    intro a b ha hb
+    unfold Reclass.combine
+    split <;> simp_all [NoStr, NoStrL, noStrL_append]
+
+def noNestPred : ValPred where
+  P := NoNest
+  PL := NoNestL
+  PEs := NoNestEs
+  nilL := by simp [NoNestL]
+  consL := by intros; simp [NoNestL]
+  nilEs := by simp [NoNestEs]
+  consEs := by intros; simp [NoNestEs]
+  map := by intros; simp [NoNest]
+  seq := by intros; simp [NoNest]
+  vlL := by intro l h; simp only [NoNest] at h; exact h.1
+  null := by simp [NoNest]
+  combine := by
+    intro a b ha hb
+    cases a <;> cases b <;>
+      simp_all [Reclass.combine, NoNest, NoNestL, noNestL_append, Value.isVl] <;>
+      (intro x hx; rcases hx with hx | hx <;> simp_all)
+
 end Reclass
